@@ -41,7 +41,7 @@ var c19Ops = []string{"call", "call", "notify", "roots", "unknown", "terminate",
 func genC19(t *rapid.T) C19Case {
 	c := C19Case{Kind: rapid.IntRange(0, 1).Draw(t, "kind"), Headers: rapid.IntRange(0, 2).Draw(t, "headers"), Before: rapid.IntRange(0, 3).Draw(t, "before") != 0,
 		Handler: rapid.IntRange(0, 3).Draw(t, "handler") != 0, Init503: rapid.IntRange(0, 4).Draw(t, "init503") == 4}
-	c.Path = rapid.SampledFrom([]string{"", "", "/custom/mcp", "/v1/x"}).Draw(t, "path")
+	c.Path = rapid.SampledFrom([]string{"", "", "/custom/mcp", "/v1/x", "/api/mcp/", "/a//b", "/x/./y", "/UPPER/Case%20d"}).Draw(t, "path")
 	n := rapid.IntRange(1, 7).Draw(t, "nops")
 	for i := 0; i < n; i++ {
 		c.Ops = append(c.Ops, rapid.SampledFrom(c19Ops).Draw(t, "op"))
